@@ -22,7 +22,20 @@ fn minval(v: &[i16]) -> i64 {
 
 /// Generate a key from a seed and observe everything C04 / C05 talk about.
 pub fn observe_key<V: Fv>(seed: [u8; 32], tag: &str) -> (KeyObs, Option<(V::Sk, V::Pk)>) {
-    observe_with::<V>(seed, tag, || V::keygen(seed))
+    let (mut obs, kp) = observe_with::<V>(seed, tag, || V::keygen(seed));
+    // the candidates ntru_gen went through, reconstructed by running gen_poly (hook) on the same generator stream: ntru_gen draws
+    // randomness only there, so candidate i is the (2i-1)-th and 2i-th polynomial of the stream
+    use rand::SeedableRng;
+    let ncand = obs.heavy["cands"].as_array().map(|a| a.len()).unwrap_or(0);
+    let mut rng = rand::rngs::StdRng::from_seed(seed);
+    let mut polys = vec![];
+    for _ in 0..ncand {
+        let f = verif::gen_poly(V::N, &mut rng);
+        let g = verif::gen_poly(V::N, &mut rng);
+        polys.push(json!({"f":i16s_json(&f),"g":i16s_json(&g)}));
+    }
+    obs.heavy["cand_polys"] = Value::Array(polys);
+    (obs, kp)
 }
 
 /// The same for any way of making a key pair (e.g. the public `ntru_gen` on a scripted generator).
@@ -72,7 +85,7 @@ pub fn observe_with<V: Fv>(seed: [u8; 32], tag: &str, maker: impl FnOnce() -> (V
         "f":i16s_json(&f),"g":i16s_json(&g),"F":i16s_json(&cf),"G":i16s_json(&cg),
         "skb":bytes_json(&skb),"pkb":bytes_json(&pkb),
         "sk_rt":sk_rt,"sk_rt_bytes_equal":sk_rt_bytes == skb,"pk_rt":pk_rt,"pk_rt_bytes_equal":pk_rt_bytes == pkb,
-        "leaves":leaves_j,"tree_shape":shape,"leaf_second_zero":leaf_second_zero,"cands":cands,"tag":tag});
+        "leaves":leaves_j,"tree_shape":shape,"leaf_second_zero":leaf_second_zero,"cands":cands,"cand_polys":[],"tag":tag});
     let light = json!({"ev":"keylight","n":V::N,"seed":bytes_json(&seed),"panic":false,
         "maxf":maxabs(&f),"maxg":maxabs(&g),"maxF":maxabs(&cf),"maxG":maxabs(&cg),
         "minf":minval(&f),"ming":minval(&g),"minF":minval(&cf),
@@ -377,7 +390,22 @@ fn boundary_keys<V: Fv>(seed: u64, thorough: bool, heavy: &mut Shards, light: &m
         }
         for (tag, f2, g2) in variants {
             if let Some(maker) = scripted_keygen::<V>(&f2, &g2, seed.wrapping_add(bi as u64)) {
-                let (obs, _) = observe_with::<V>([bi as u8; 32], &tag, maker);
+                let (mut obs, _) = observe_with::<V>([bi as u8; 32], &tag, maker);
+                // the candidates, reconstructed from an identical copy of the generator (script, then the same seeded stream)
+                if let (Some(sf), Some(sg)) = (script_for_poly(&f2), script_for_poly(&g2)) {
+                    use rand::SeedableRng;
+                    let mut script = sf;
+                    script.extend(sg);
+                    let mut rng2 = ScriptThenRng { script, pos: 0, fallback: rand_chacha::ChaCha20Rng::seed_from_u64(seed.wrapping_add(bi as u64)) };
+                    let ncand = obs.heavy["cands"].as_array().map(|a| a.len()).unwrap_or(0);
+                    let mut polys = vec![];
+                    for _ in 0..ncand {
+                        let f = verif::gen_poly(V::N, &mut rng2);
+                        let g = verif::gen_poly(V::N, &mut rng2);
+                        polys.push(json!({"f":i16s_json(&f),"g":i16s_json(&g)}));
+                    }
+                    obs.heavy["cand_polys"] = Value::Array(polys);
+                }
                 heavy.emit(obs.heavy);
                 light.emit(obs.light);
             }
